@@ -174,7 +174,7 @@ def step [DecidableEq ρ] (B : Backend σ κ γ ρ) (sched : List (List γ)) (t 
       | .parseErr => (t, s, .err .parse)
       | .protoErr => (t, s, .err .protocol)
 
-/-- the machine after the proposed `fix:` commit (branch fixes-txn-s3): a protocol error between
+/-- the machine since the `fix:` commit 6b9d6a7 (the CURRENT tree): a protocol error between
     MULTI and EXEC flags the transaction, as an arity error does (`transaction_errors = true` in
     the `CommandResult::ParseError` branch of `run`); everything else is `step` -/
 def stepFixed [DecidableEq ρ] (B : Backend σ κ γ ρ) (sched : List (List γ)) (t : ConnTxn κ γ ρ) (s : σ) :
@@ -182,7 +182,7 @@ def stepFixed [DecidableEq ρ] (B : Backend σ κ γ ρ) (sched : List (List γ)
   | .protoErr => if t.inTxn then ({ t with errors := true }, s, .err .protocol) else (t, s, .err .protocol)
   | i => step B sched t s i
 
-/-- `protoFlags = false`: the current tree; `true`: the tree with the proposed fix -/
+/-- `protoFlags = false`: the pinned commit; `true`: the current tree (since `fix:` 6b9d6a7) -/
 def stepWith [DecidableEq ρ] (protoFlags : Bool) (B : Backend σ κ γ ρ) (sched : List (List γ))
     (t : ConnTxn κ γ ρ) (s : σ) (i : Input κ γ) : ConnTxn κ γ ρ × σ × Reply ρ :=
   if protoFlags then stepFixed B sched t s i else step B sched t s i
